@@ -61,6 +61,7 @@ def check(ctx, run):
                                                   "TestMemoryAllocator::free_memory": lambda *a_: (freed.append(a_[0]), 0)[1], FA + "::free_memory": lambda *a_: (freed.append(a_[0]), 0)[1],
                                                   "TestMemoryAllocator::alloc_memory": lambda *a_: (base.append(a_), 4242)[1]})
         ev.heap_mode = True
+        ev.objects = True       # (a file-local cursor / guard object that walks the list is constructed and folded)
         ev.inline = {NODE + "::shouldFail"} | {g.qn for g in prog.functions.values() if g.file == am.file and not g.cls and g.d.get("static")}
         ev.run_blocks(am.entry, max_steps=3000)
         chain, c = [], ev.env.get("head_")
